@@ -189,7 +189,7 @@ fn gen_content(rng: &mut Rng, max: usize) -> Content {
 
 fn gen_bits(rng: &mut Rng, max_bits: usize) -> Content {
     // Directed: vectors long and sparse (or dense) enough for "long" select superblocks, down to a single value.
-    if max_bits >= 8000 && rng.chance(1, 60) {
+    if max_bits >= 100_000 && rng.chance(1, 20) {
         let len = rng.range_usize(83_521, 200_000);
         let pat = *rng.pick(&[Pat::Single, Pat::AllButOne, Pat::Ends, Pat::Density(1), Pat::Density(999)]);
         return Content { len, pat, salt: rng.next() & 0xFFFF_FFFF };
@@ -225,6 +225,16 @@ pub fn gen_large_payload(rng: &mut Rng, words: usize) -> Payload {
     };
     let opt = if rng.chance(1, 4) { 1 } else { 0 };
     Payload { leaf, opt, none_at: None }
+}
+
+/// A bitvector (or one of its select supports) long and sparse / dense enough for "long" select
+/// superblocks, down to a superblock that holds a single value.
+pub fn gen_long_superblock_payload(rng: &mut Rng) -> Payload {
+    let len = rng.range_usize(83_521, 200_000);
+    let pat = *rng.pick(&[Pat::Single, Pat::AllButOne, Pat::Ends, Pat::Density(1), Pat::Density(999)]);
+    let c = Content { len, pat, salt: rng.next() & 0xFFFF_FFFF };
+    let leaf = match rng.below(4) { 0 => Leaf::Sel(c), 1 => Leaf::SelZ(c), _ => Leaf::Bv { c, supports: 1 + rng.below(7) as u8, route: 0 } };
+    Payload { leaf, opt: rng.below(2) as u8, none_at: None }
 }
 
 pub fn gen_payload(rng: &mut Rng, cfg: &GenCfg) -> Payload {
